@@ -270,6 +270,17 @@ def gen_groups(rng, tier):
                     groups.append(dict(kind="npseq", signed=first[0], n_bits=first[1], n_frac=first[2],
                                        formats=[list(t) for t in seq], xs=part, shape=shape, layout=layout,
                                        dtype=dtype))
+    # --- ONE converter object called on several same-shaped inputs; the judged result is read after the last call
+    for s in (True, False):
+        for n in NP_BITS:
+            for shape, layout, k in (([5], "c", 5), ([2, 3], "c", 6), ([], "c", 1), ([], "npscalar", 1), ([4], "f", 4)):
+                f = rng.choice([0, n // 2, rng.choice(fracs_all)])
+                pickk = lambda: [rng.choice(pool) for _ in range(k)]
+                pool = gen_values(rng, s, n, f, 24, nonfinite=False)
+                xs = pickk()
+                groups.append(dict(kind="np", signed=s, n_bits=n, n_frac=f, xs=xs, shape=shape, layout=layout,
+                                   around=dict(before=pickk(), after=pickk()),
+                                   nomodel=nomodel(n // 8 + (1 if s else 0))))
     # --- array converters used after a pickle round trip / copy.copy / copy.deepcopy of the converter object
     for how in ("pickle", "copy", "deepcopy"):
         for s in (True, False):
@@ -534,6 +545,8 @@ def desc(g):
         extra += " [parameters given as numpy scalars: %s]" % ", ".join("%s: np.%s" % kv for kv in sorted(g["ptypes"].items()) if kv[1])
     if g.get("copy"):
         extra += " [converter object after %s]" % g["copy"]
+    if g.get("around"):
+        extra += " [ONE converter object: called on another same-shaped input before and after, result read after the last call]"
     return _desc(g) + extra
 
 
